@@ -26,7 +26,7 @@ func c07Resolutions(r *rng, k int) []spec.Resolution {
 			x.Entropy = r.next()
 		}
 		if r.chance(50) {
-			x.Rate = pick(r, int64(10), 200, 5_000, 50_000, 2_000_000)
+			x.Rate = pick(r, int64(10), 200, 5_000, 50_000, 100_000) // real loop iterations take 10-30 ns: up to ~5000x slower than this machine
 		}
 		res = append(res, x)
 	}
